@@ -229,6 +229,11 @@ def interp(ast, env, cx):
 
                 normal = run_job(body, env2, cx2)
                 return Out(normal.oks, normal.errs + [SchedulerError('Unknown executor "nope"')], normal.overflow)
+            if opts.get("t") == "gnode":
+                # the default argument is itself a job, evaluated under the context of this call
+                from vf_tasks import G_BODY
+
+                return run_job(G_BODY, {}, cx2).then(lambda g: run_job(body, {**env2, "g": g}, cx2))
             return run_job(body, env2, cx2)
 
         extra = [interp(opts["d"], env, cx)] if "d" in opts else []
@@ -824,12 +829,39 @@ def programs(draw, max_depth=3, modes=("node",), errors=True, ctxs=False, limits
         return lit_int(draw)
 
     focus = draw(st.sampled_from(["any", "any", "catch", "catch_all", "op", "cond", "seq", "map", "map2", "task",
-                                  "callv", "flat_map", "nout", "let", "getitem", "dexplicit", "set"]))
+                                  "callv", "flat_map", "nout", "let", "getitem", "dexplicit", "set", "ptwin"]))
+    if focus == "ptwin" and permitted("map"):
+        # two sibling uses of partial tasks that differ ONLY in the value a partial binds (same
+        # body, same remaining arguments): distinct task values, so distinct calls
+        body = ["list", [["var", "a"], ["var", "x"]]] if draw(st.booleans()) else ["op", "add", ["var", "a"], ["var", "x"]]
+        v1 = draw(small_int)
+        v2 = draw(small_int.filter(lambda v: v != v1))
+        form = draw(st.sampled_from(["map", "callv", "catch"]))
+        xs = ["list", [lit_int(draw) for _ in range(draw(st.integers(1, 2)))]]
+        arg = lit_int(draw)
+
+        def twin(v):
+            b = {"a": ["lit", ["int", v]]}
+            if form == "map":
+                return ["map", body, b, xs]
+            if form == "callv" and permitted("callv"):
+                return ["callv", ["mkpartial", body, b], [arg]]
+            if permitted("catch") and errors:
+                return ["catch", ["throw", "ValueError", "e1"], ["ValueError"], ["var", "a"], b]
+            return ["map", body, b, xs]
+
+        pair = [twin(v1), twin(v2)]
+        shape = draw(st.sampled_from(["list", "seq", "tasks"]))
+        if shape == "seq" and permitted("seq"):
+            return ["seq", pair]
+        if shape == "tasks":
+            return ["list", [["task", pair[0], {}, {}], ["task", pair[1], {}, {}]]]
+        return ["list", pair]
     if focus == "dexplicit" and "dnode" in modes:
         core = ["task", ["list", [["var", "d"], ["var", "d2"], gen({"d", "d2"}, max_depth - 1, "any")]], {},
                 {"t": "dnode", "d": gen(set(), max_depth - 1, "int")}]
         return core if draw(st.booleans()) else ["task", core, {}, {}]
-    if focus == "any" or focus == "dexplicit" or not permitted(focus):
+    if focus == "any" or focus in ("dexplicit", "ptwin") or not permitted(focus):
         return gen(set(), max_depth, "any")
     core = make(focus, set(), max_depth)
     wrap = draw(st.sampled_from(["none", "task", "list"]))
